@@ -94,6 +94,8 @@ class Tr:
             raise Unsupported("cast kind %s at %s" % (ck, where(n)))
         if k == "CXXUnresolvedConstructExpr":
             t = sort_of_type(n["type"]["qualType"])
+            if t == 'T' and not n.get("inner"):
+                return "(zero K)", 'T'
             if t == 'T' and len(n["inner"]) == 1:
                 g, s = self.expr(n["inner"][0])
                 if s == 'u':
@@ -129,12 +131,27 @@ class Tr:
             if cs != 'b' or sa != sb:
                 raise Unsupported("conditional sorts at " + where(n))
             return "(if %s then %s else %s)" % (c, a, b), sa
+        if k == "UnaryOperator" and n.get("opcode") == "!":
+            a, sa = self.expr(n["inner"][0])
+            if sa != 'b':
+                raise Unsupported("operand of ! at " + where(n))
+            return "(negb %s)" % a, 'b'
         if k == "BinaryOperator":
             op = n["opcode"]
             a, sa = self.expr(n["inner"][0])
             b, sb = self.expr(n["inner"][1])
             if sa != sb:
                 raise Unsupported("operand sorts %s %s for %s at %s" % (sa, sb, op, where(n)))
+            if sa == 'b':
+                f = {'&&': 'andb', '||': 'orb'}.get(op)
+                if not f:
+                    raise Unsupported("boolean operator %s at %s" % (op, where(n)))
+                return "(%s %s %s)" % (f, a, b), 'b'
+            if sa == 'T' and op in ('<', '<=', '>', '>=', '==', '!='):
+                # IEEE comparisons of the numeric type (false on NaN, except != which is true)
+                g = {'<': "(ltb K %s %s)" % (a, b), '<=': "(leb K %s %s)" % (a, b), '>': "(ltb K %s %s)" % (b, a), '>=': "(leb K %s %s)" % (b, a),
+                     '==': "(eqb K %s %s)" % (a, b), '!=': "(negb (eqb K %s %s))" % (a, b)}[op]
+                return g, 'b'
             if sa == 'T':
                 f = {'+': 'add', '-': 'sub', '*': 'mul', '/': 'div'}.get(op)
                 if not f:
@@ -156,8 +173,11 @@ class Tr:
             callee = n["inner"][0]
             while callee["kind"] in ("ImplicitCastExpr", "ParenExpr"):
                 callee = callee["inner"][0]
-            name = callee.get("referencedDecl", {}).get("name")
+            name = callee.get("referencedDecl", {}).get("name") or callee.get("name")
             args = [self.expr(c) for c in n["inner"][1:]]
+            if name in ("fabs", "sqrt") and len(args) == 1 and args[0][1] == 'T':
+                return "(%s K %s)" % ({'fabs': 'fabs', 'sqrt': 'fsqrt'}[name], args[0][0]), 'T'
+
             if name == "max" and len(args) == 2 and all(s in ('u',) for _, s in args):
                 return "(Z.max %s %s)" % (args[0][0], args[1][0]), 'u'
             if name in self.known:
@@ -263,8 +283,8 @@ def translate_function(docs, name, gname, known, uses_K, members=None, ret_sort=
     kp = "(K : Num) " if uses_K else ""
     return "Definition %s %s%s :=\n%s.\n" % (gname, kp, " ".join(sig), text)
 
-def translate_vardecl(docs, var, gname, params, known, expect=1):
-    """initialiser of local variable `var`; its free names must be exactly `params` [(name, sort)]"""
+def translate_vardecl(docs, var, gname, params, known, expect=1, members=None, uses_K=False):
+    """initialiser of local variable `var`; its free names must be exactly `params` [(name, sort)] (and the members given)"""
     cands = []
     for d in docs:
         cands += list(find(d, lambda n: n.get("kind") == "VarDecl" and n.get("name") == var and "inner" in n))
@@ -272,13 +292,14 @@ def translate_vardecl(docs, var, gname, params, known, expect=1):
         raise Unsupported("expected %d declaration(s) of %s, found %d" % (expect, var, len(cands)))
     outs = []
     for v in cands:
-        tr = Tr({n: (n, s) for n, s in params}, known_funs=known)
+        tr = Tr({n: (n, s) for n, s in params}, members={m: (m, s) for m, s in (members or [])}, known_funs=known)
         init = [c for c in v["inner"] if c["kind"] != "FullComment"][0]
         g, so = tr.expr(init)
         t = sort_of_type(v["type"]["qualType"])
         if t != so:
             raise Unsupported("sort of %s" % var)
-        outs.append("Definition %s %s : %s :=\n  %s.\n" % (gname, " ".join("(%s : %s)" % (n, GT[s]) for n, s in params), GT[t], g))
+        sig = list(members or []) + list(params)
+        outs.append("Definition %s %s%s : %s :=\n  %s.\n" % (gname, "(K : Num) " if uses_K else "", " ".join("(%s : %s)" % (n, GT[s]) for n, s in sig), GT[t], g))
     return outs
 
 HEADER = """(* GENERATED by translator/cxx2gallina.py from %s/include -- do not edit.
@@ -317,6 +338,11 @@ def main(out):
     parts.append(translate_function(mr, "variance", "mc_variance", known, True, members=mem, ret_sort='T'))
     parts.append("(* returns (calls, non_zero_calls, finite_calls, sum, sum_of_squares) *)\n")
     parts.append(translate_function(mr, "create_result", "create_result", known, True, ret_sort='tuple'))
+    cb = run_clang("hep/mc/callback.hpp", "callback")
+    parts.append("(* callback.hpp: the decision of the built-in callback from its target and the combined relative error *)\n")
+    parts += translate_vardecl(cb, "rel_err_all", "rel_err_all_of", [("err_all", 'T'), ("val_all", 'T')], known, uses_K=True)
+    parts += translate_vardecl(cb, "perform_more_iterations", "perform_more_iterations", [("rel_err_all", 'T')], known,
+                               members=[("target_rel_err_", 'T')], uses_K=True)
     text = "\n".join(parts)
     with open(out, "w") as fh:
         fh.write(text)
